@@ -1,3 +1,3 @@
 #!/bin/sh
 # replays this counterexample against the real build
-cd /tmp/seedonly_C16d_26304 && VERIF_SCRIPT=/verif/replays/C16/VHarnessMintInfoC16_73cfdda2_0/script.json VERIF_RAW_SALT=0 GOFLAGS=-mod=mod GOPROXY=off go test -vet=off -count=1 -overlay /verif/replays/C16/VHarnessMintInfoC16_73cfdda2_0/overlay.json -run ^TestVerifReplay_VHarnessMintInfoC16$ -v ./mint
+cd /tmp/seedrepo_C16d && VERIF_SCRIPT=/verif/replays/C16/VHarnessMintInfoC16_73cfdda2_0/script.json VERIF_RAW_SALT=0 GOFLAGS=-mod=mod GOPROXY=off go test -vet=off -count=1 -overlay /verif/replays/C16/VHarnessMintInfoC16_73cfdda2_0/overlay.json -run ^TestVerifReplay_VHarnessMintInfoC16$ -v ./mint
